@@ -43,6 +43,9 @@ pub struct ModSpec {
     /// d * 2 ms + 500 us later (ignored together with `pending_join`)
     #[serde(default)]
     pub restart: Option<(u8, u8)>,
+    /// Module::stack adds the module's own elements as one block (`stack.append(block)`) instead of one by one
+    #[serde(default)]
+    pub own_as_block: bool,
 }
 
 #[derive(Clone, Debug, Serialize, Deserialize)]
@@ -111,16 +114,26 @@ struct M {
     restart: Option<(usize, u128)>,
     seen: usize,
     restarted: bool,
+    own_as_block: bool,
 }
 
 impl Module for M {
     fn stack(&self, mut stack: ProcessingStack) -> ProcessingStack {
+        let mut block = ProcessingStack::default();
         for (k, e) in self.own.iter().enumerate() {
-            stack.append(PE {
+            let pe = PE {
                 idx: (self.base + k) as i64,
                 spec: e.clone(),
                 pending_end_send: None,
-            });
+            };
+            if self.own_as_block {
+                block.append(pe);
+            } else {
+                stack.append(pe);
+            }
+        }
+        if self.own_as_block {
+            stack.append(block);
         }
         stack
     }
@@ -234,6 +247,7 @@ pub fn run_case(case: &Case) -> Result<(bool, Vec<&'static str>), Failure> {
                 restart: restart_of(m),
                 seen: 0,
                 restarted: false,
+                own_as_block: m.own_as_block,
             },
         );
     }
@@ -495,6 +509,9 @@ pub fn run_case(case: &Case) -> Result<(bool, Vec<&'static str>), Failure> {
     if was_down.iter().any(|d| *d) {
         labels.push("shutdown-and-restart");
     }
+    if mods.iter().any(|m| m.own_as_block && m.own.len() > g && g > 0) {
+        labels.push("module-block-longer-than-global-stack");
+    }
     if restart_stage_events >= 2 {
         labels.push("restart-replays->=2-stages");
     }
@@ -509,7 +526,7 @@ impl Prop for C14 {
     type Case = Case;
 
     fn rule() -> String {
-        "proptest: a global stack of 0..4 elements and 0..2 per-module elements (Module::stack) for 1..2 target modules, element kinds pass / rewrite \
+        "proptest: a global stack of 0..4 elements and 0..4 per-module elements (Module::stack, appended one by one or as one block) for 1..2 target modules, element kinds pass / rewrite \
          id / consume-if(id % m == r) / also-send / send-on-event-end; events: start-up stages (0..2 per module), injected messages at distinct \
          instants, timer wake-ups of a task, a shutdown requested by the handler with a restart that replays the start-up stages (messages \
          that arrive while the module is down are dropped without any hook call), tear-down (also ending in an error: at_sim_end returns Err, or a joined task is still pending); \
@@ -542,7 +559,7 @@ impl Prop for C14 {
             1 => Just(Elem::SendOnEnd),
         ];
         let m = (
-            proptest::collection::vec(elem.clone(), 0..3),
+            proptest::collection::vec(elem.clone(), 0..5),
             0u8..3,
             proptest::collection::vec(0u8..20, 0..4),
             proptest::collection::vec((0u8..20, 0u8..12), 0..6),
@@ -550,8 +567,9 @@ impl Prop for C14 {
             proptest::bool::weighted(0.2),
             proptest::bool::weighted(0.2),
             proptest::option::weighted(0.35, (0u8..4, 0u8..6)),
+            any::<bool>(),
         )
-            .prop_map(|(own, stages, wakes, msgs, handler_sends, end_err, pending_join, restart)| ModSpec {
+            .prop_map(|(own, stages, wakes, msgs, handler_sends, end_err, pending_join, restart, own_as_block)| ModSpec {
                 own,
                 stages,
                 wakes,
@@ -560,6 +578,7 @@ impl Prop for C14 {
                 end_err,
                 pending_join,
                 restart,
+                own_as_block,
             });
         (proptest::collection::vec(elem, 0..5), proptest::collection::vec(m, 1..3))
             .prop_map(|(global, mods)| Case { global, mods })
